@@ -644,6 +644,19 @@ pub fn nonsym_cone_battery(
     out.unit_z = uz;
     out.unit_s = us;
     out.degree = c.degree();
+    // (... and the cone has evaluated its primal barrier and gradient at another interior point before: a point next to the
+    //  unit point with a nonzero last block, so that work buffers carry the values of that evaluation)
+    {
+        let mut warm = out.unit_s.clone();
+        let k0 = match cone { crate::solver::SupportedConeT::GenPowerConeT(a, _) => a.len(), _ => 2 };
+        for (j, w) in warm.iter_mut().enumerate().skip(k0) { *w += 0.05 / (1.0 + j as f64); }
+        match &mut c {
+            SupportedCone::ExponentialCone(k) => { if k.is_primal_feasible(&warm) { let _ = k.barrier_primal(&warm); let _ = k.gradient_primal(&warm); } }
+            SupportedCone::PowerCone(k) => { if k.is_primal_feasible(&warm) { let _ = k.barrier_primal(&warm); let _ = k.gradient_primal(&warm); } }
+            SupportedCone::GenPowerCone(k) => { if k.is_primal_feasible(&warm) { let _ = k.barrier_primal(&warm); let mut g = vec![0.0; n]; k.gradient_primal(&mut g, &warm); } }
+            _ => {}
+        }
+    }
     match &mut c {
         SupportedCone::ExponentialCone(k) => {
             out.primal_feasible = k.is_primal_feasible(s); out.dual_feasible = k.is_dual_feasible(z);
